@@ -14,7 +14,7 @@ import re
 
 import vlib
 
-PROPS = ['Rangers.Props.C18', 'Rangers.Props.C18Gen']
+PROPS = ['Rangers.Props.C18', 'Rangers.Props.C18Gen', 'Rangers.Props.C18Aux', 'Rangers.Props.C18Sites', 'Rangers.Props.C18Size']
 DRIVERS = ['C18']
 
 META = dict(
@@ -33,12 +33,16 @@ META = dict(
     assumptions=[
         'token decimal counts and digit counts are as in the quantifier (0..18 decimals, <= 78 integer digits, <= 18 fractional digits); outside it the model is still compared with the code but no identity is claimed',
         'callers pass non-nil *big.Int (nil is answered "0"/0 by the Go code and is not modelled)',
+        'Go converts uint64 to float64 with round-to-nearest-even (modelled, compared by the stake op on every run)',
     ],
     rule='distinct op lines evaluated by both the implementation and the model whose model answer is neither bad-op nor unmodelled',
     explanation='strToBigInt parses through a 512-bit binary float with away-from-zero rounding, multiplies by 10^d (rounded again) and truncates. '
                 'The model reproduces big.ParseFloat for base 10 exactly (grammar, radix point as 2^-f*5^-f, pow5 table and loop, one correctly rounded '
                 'division, exponent range, Inf) and the theorems show that for every plain decimal string with value N/10^f and N*10^d < 2^510 the result is '
-                'exactly trunc(N*10^d/10^f); the format/parse round trip, both 18-decimal re-scalings, the bound-token balance operations of accountdb_tuntun.go and the wrapped-transaction value path follow.',
+                'exactly trunc(N*10^d/10^f); the format/parse round trip, both 18-decimal re-scalings, the bound-token balance operations of accountdb_tuntun.go and the wrapped-transaction value path follow. '
+                'Deepening: Float64ToBigInt with a bit-exact float64 model (exact on every double; stakes exact below 2^53), Uint64ToBigInt, the VM whole-coin reader, '
+                'BigIntBase10toN, service.ChangeAssets, a generated inventory of all 43 conversion call sites each mapped to its exactness theorem, and a size bound '
+                '(bits <= 4|s| + 5 exp + 4 d + 8; linear without an exponent marker) for the resource observation.',
 )
 
 
@@ -126,7 +130,7 @@ def replay(ctx, payload):
         for b in payload['broken']:
             if b[0] == 'correspondence' and b[1].get('first'):
                 op = b[1]['first'][0]['op']
-    if not op or op.split(' ')[0] not in ('parse', 'pf', 'fmt', 'tostr', 'nodot', 'erc20', 'rocket', 'evmval', 'ft'):
+    if not op or op.split(' ')[0] not in ('parse', 'pf', 'fmt', 'tostr', 'nodot', 'erc20', 'rocket', 'evmval', 'ft', 'stake', 'f64', 'u64', 'stakearg', 'basen', 'calldata', 'size', 'xfer'):
         return 0
     binp, log = vlib.go_build(ctx, vlib.HARNESS, './cmd/c18', 'c18')
     if not binp:
